@@ -96,3 +96,60 @@ PLANS["C16"] = dict(
     assumptions=["serde / serde_json follow the rename attributes (validated: the JSON field names and values are compared with the documented names in the driver)",
                  "Tag <-> SerdeTag conversions are modelled by hand (Wx/Pure/SerdeTag.lean); the 41-row kind table is generated from the source"],
 )
+
+# ------------------------------------------------------------------------------------------------
+# C17 path summaries
+
+def c17_streams(ctx):
+    n = 40000 if ctx["thorough"] else 4000
+    def classify(c, obs):
+        k = ["common-" + ("none" if obs.startswith("COMMON=-") else "set")]
+        for v in ("CREATED", "META_CHANGED", "REMOVED", "RENAMED", "WRITTEN", "OTHERWISE_CHANGED"):
+            if "|" + v + "=" in obs: k.append(v)
+        return k
+    s = simple_stream("C17", "summary", "cli", "wxsummary", [ctx["seed"], n], ["pure"],
+                      nontrivial=lambda c, obs: "=" in obs.split("||")[0][len("COMMON="):], classify=classify)
+    s.note = ("batches of 0-4 events x 0-3 paths x 0-2 kinds, relative and absolute paths, shared bases, duplicates, paths equal to the common prefix, all file "
+              "types; real summarise_events_to_env and (hook H1) events_to_simple_format vs the model; the harness also evaluates the property itself on the "
+              "real output (entry in the variable of its kind, COMMON joined with the entry gives the path, strictly increasing entries, nothing else listed)")
+    return [s]
+
+PLANS["C17"] = dict(
+    modules=["Wx.Pure.C17", "Wx.Pure.C17b"],
+    theorems=["Wp.common_is_prefix", "Wp.common_is_longest", "Wp.common_none", "Wp.trunk_under", "Wp.strip_join", "Wp.sortDedup_spec", "Wp.bucket_mem",
+              "Wp.summarise_vars", "Wp.summarise_entries", "Wp.summarise_complete", "Wp.entry_faithful", "Wp.entry_no_common", "Wp.common_longest",
+              "Wp.simpleFormat_eq", "Wp.simpleFormat_append", "Wp.eventLines_length"],
+    bins=[("cli", ["wxsummary"])],
+    streams=c17_streams,
+    sources=["crates/lib/src/paths.rs", "crates/cli/src/emits.rs"],
+    rule="a case is one batch of events; non-trivial = at least one variable besides COMMON is set; distinct by (batch, observation)",
+    assumptions=["std::path component semantics (strip_prefix, join, parent, ==) are modelled by hand as lists of components with an optional root"],
+)
+
+# ------------------------------------------------------------------------------------------------
+# C18 spawned commands
+
+def c18_streams(ctx):
+    n, nspawn = (30000, 600) if ctx["thorough"] else (3000, 120)
+    def classify(c, obs):
+        f = c.split("\t")
+        return [("exec" if f[1] == "E" else "shell"), "wraps=" + obs.split("wraps=")[1]]
+    s = simple_stream("C18", "spawn", "lib", "wxspawn", [ctx["seed"], n, nspawn], ["pure"], classify=classify,
+                      nontrivial=lambda c, obs: True)
+    s.note = (f"random commands (strings assembled from the empty string, blanks, tabs, newlines, quotes, $HOME, *, back-ticks, ;, |, &&, \\, -c, --, multi-byte "
+              f"UTF-8): program/arguments/wrappers of the real to_spawnable() vs the model; the first {nspawn} are really spawned through start_job with a spawn hook "
+              "that sets an environment variable and the working directory — the helper child reports argv (hex), whether its process group / session differ "
+              "from the harness's, cwd and the variable (oracle)")
+    return [s]
+
+PLANS["C18"] = dict(
+    modules=["Wx.Pure.C18"],
+    theorems=["Wp.argv_exec", "Wp.argv_shell", "Wp.wrappers_session", "Wp.wrappers_grouped", "Wp.wrappers_plain", "Wp.interpret_noshell",
+              "Wp.interpret_shell", "Wp.splitWs_clean", "Wp.splitWs_flatten"],
+    bins=[("lib", ["wxspawn"])],
+    streams=c18_streams,
+    sources=["crates/supervisor/src/command/conversions.rs", "crates/supervisor/src/command/program.rs", "crates/supervisor/src/command/shell.rs", "crates/cli/src/config.rs"],
+    rule="a case is one Command (program + spawn options); every case is non-trivial; distinct by (command, observation)",
+    assumptions=["execve delivers argv byte for byte and process-wrap's ProcessGroup / ProcessSession / KillOnDrop do what they document: validated by the real spawns, not proved"],
+    partial="OS behaviour (execve fidelity, effect of the group/session wrappers) is validated by real spawns, not proved",
+)
